@@ -696,7 +696,10 @@ def _gen_sx(ctx, rng, cls, big):
               "list": str(rng.choice(["csv", "csv", "array"]))}
     if as_files and cls == "sx_big_angle_list":
         io["list"] = "csv"
-    use64 = bool(rng.random() < (0.7 if cls == "sx_sigma" else 0.35)) and io["scores"] == "array"
+    # a threshold EQUAL to a voxel's score is judged for float64 maps only (float32 maps: comparison-dtype hairline, see
+    # c07_oracle.threshold_of), so those cases are driven with a float64 array whenever the scores are not read from a file
+    thr_equal = cls != "sx_zero_threshold" and bool(np.any(srt == thr))
+    use64 = (bool(rng.random() < (0.7 if cls == "sx_sigma" else 0.35)) or thr_equal) and io["scores"] == "array"
     S = S32.astype(np.float64) if use64 else S32
     if cls == "sx_sigma" or (cls in ("sx_blobs", "sx_noncubic", "sx_faces") and rng.random() < 0.25):
         plant = cls == "sx_sigma" and S.dtype == np.float64 and rng.random() < 0.85
